@@ -17,7 +17,14 @@
 (* execution -- the units the code runs under one entity lock / as one     *)
 (* task.  The hierarchy is TA <- Top <- ... with the top CA's holdings     *)
 (* fixed (a child of the TA cannot have its entitlement changed through    *)
-(* the CA API) and one resource class per CA (one parent).                 *)
+(* the CA API).  A CA may have several parents: every parent gives it one  *)
+(* resource class, modelled as one *slot* per (CA, parent) pair; what the   *)
+(* code keeps per CA (existence, configured authorisations, the publisher,  *)
+(* the repository report, the repository synchronisation task) lives at the *)
+(* CA's first slot, what it keeps per resource class / per parent / per     *)
+(* child lives at the slot.  A CA with several slots has no children here   *)
+(* (a child of a CA with two classes would itself get two classes from one  *)
+(* parent).                                                                 *)
 (*                                                                         *)
 (* Abstractions: resources are sets of atoms; keys are identified by their *)
 (* role (cur / new / old) in the resource class; objects are identified    *)
@@ -40,12 +47,22 @@ CONSTANTS
     AspaDefs,   \* the subset of Roa that are provider authorisations; a CA
                 \* has at most one per customer AS (a new one replaces it)
     ParentOf,   \* [Sub -> AllCA]: under which CA a name may be created
+    CaOf,       \* [AllCA -> AllCA]: a CA with several parents has one
+                \*   resource class per parent; every name in AllCA is a
+                \*   *slot* = one (CA, parent) pair, CaOf[s] is the CA the slot
+                \*   belongs to (its first slot; CaOf[c] = c for a CA's first
+                \*   slot, and for every CA with one parent)
     Ops,        \* the kinds of API operations the environment uses
     ShadowRebuilt \* BOOLEAN: a successful repository synchronisation sets
                 \*   the shown list of published objects to what was sent in
                 \*   full (TRUE) or applies the difference to it (FALSE)
 
 AllCA == {Top} \cup Sub
+\* values for CaOf: every CA has one parent / the names ending in 2 are the
+\* second slots of the CAs B, C, D
+IdCa == [c \in AllCA |-> c]
+SecondSlots == [c \in AllCA |-> IF c = "B2" THEN "B" ELSE IF c = "C2" THEN "C"
+                                ELSE IF c = "D2" THEN "D" ELSE c]
 Roles == {"cur", "new", "old"}
 ReqKinds == {"pend", "cur", "new", "rev"}
 NoRes == {}
@@ -53,7 +70,9 @@ NoRes == {}
 VARIABLES
     exists,     \* [AllCA -> BOOLEAN]  the CA is hosted by this instance
     gone,       \* [AllCA -> BOOLEAN]  the CA was deleted
-    parent,     \* [AllCA -> AllCA \cup {"ta", "none"}]
+    parent,     \* [AllCA -> AllCA \cup {"ta", "none"}] the parent of the slot
+    hasp,       \* [AllCA -> BOOLEAN] the CA has that parent configured
+                \*   (FALSE again after ca_parent_remove)
     \* the parent's record of the child
     ent,        \* [AllCA -> SUBSET Res]   entitlement
     cstate,     \* [AllCA -> {"none", "active", "suspended"}]
@@ -82,7 +101,7 @@ VARIABLES
     kst         \* [AllCA -> outcome] the parent's report about the child's
                 \*   most recent request
 
-vars == <<exists, gone, parent, ent, cstate, iss, sus, rc, rcv, req, routes,
+vars == <<exists, gone, parent, hasp, ent, cstate, iss, sus, rc, rcv, req, routes,
           pub, tasks, pubknown, pst, rst, kst>>
 
 Prefix(r) == r[1]
@@ -100,18 +119,28 @@ NoCerts == [x \in Roles |-> NoRes]
 EmptyPub == [cur |-> FALSE, new |-> FALSE, old |-> FALSE,
              vrps |-> {}, kids |-> {}, ovrps |-> {}, okids |-> {}]
 
-Holdings(c) == rcv[c]["cur"]                   \* CertAuth::all_resources
+\* slots and the CAs they belong to
+Prim(s) == CaOf[s]
+IsCa(c) == CaOf[c] = c
+SlotsOf(c) == {s \in AllCA : CaOf[s] = CaOf[c]}
+Ex(s) == exists[Prim(s)]
+\* everything the CA holds under any parent (CertAuth::all_resources)
+Holdings(c) == UNION {rcv[s]["cur"] : s \in SlotsOf(c)}
+\* the parent's record of its children survives the child's removal of the
+\* parent (parent[s] is never reset)
 ChildrenOf(p) == {c \in AllCA : parent[c] = p /\ cstate[c] # "none"}
 
 \* The objects a CA's object store holds (publishing.rs): a function of
 \* the CA's configuration, its certificates and what it issues to children.
 \* C01 says the repository says exactly this.
 Obj(c) ==
-    IF ~exists[c] THEN EmptyPub
+    IF ~Ex(c) THEN EmptyPub
     ELSE [cur  |-> rcv[c]["cur"] # NoRes,
           new  |-> rc[c] = "roll_new",
           old  |-> rc[c] = "roll_old",
-          vrps |-> {r \in routes[c] : Prefix(r) \in rcv[c]["cur"]},
+          \* (every resource class gets an object for every configured
+          \* authorisation its current certificate covers)
+          vrps |-> {r \in routes[Prim(c)] : Prefix(r) \in rcv[c]["cur"]},
           kids |-> {<<d, x, iss[d][x]>> : d \in {e \in ChildrenOf(c) : cstate[e] = "active"},
                                           x \in Roles} \ {<<d, x, NoRes>> : d \in AllCA, x \in Roles},
           ovrps |-> {}, okids |-> {}]
@@ -120,6 +149,7 @@ TypeOK ==
     /\ exists \in [AllCA -> BOOLEAN]
     /\ gone \in [AllCA -> BOOLEAN]
     /\ parent \in [AllCA -> AllCA \cup {"ta", "none"}]
+    /\ hasp \in [AllCA -> BOOLEAN]
     /\ ent \in [AllCA -> SUBSET Res]
     /\ cstate \in [AllCA -> {"none", "active", "suspended"}]
     /\ iss \in [AllCA -> [Roles -> SUBSET Res]]
@@ -138,6 +168,7 @@ Init ==
     /\ exists = [c \in AllCA |-> c = Top]
     /\ gone = [c \in AllCA |-> FALSE]
     /\ parent = [c \in AllCA |-> IF c = Top THEN "ta" ELSE "none"]
+    /\ hasp = [c \in AllCA |-> c = Top]
     /\ ent = [c \in AllCA |-> IF c = Top THEN TopRes ELSE NoRes]
     /\ cstate = [c \in AllCA |-> IF c = Top THEN "active" ELSE "none"]
     /\ iss = [c \in AllCA |-> IF c = Top THEN [NoCerts EXCEPT !["cur"] = TopRes]
@@ -157,7 +188,7 @@ Init ==
     /\ kst = [c \in AllCA |-> "none"]
 
 SP(c) == <<"sync_parent", c>>
-SR(c) == <<"sync_repo", c>>
+SR(c) == <<"sync_repo", CaOf[c]>>             \* one per CA
 RM(c) == <<"rc_removed", c>>
 
 ---------------------------------------------------------------------------
@@ -166,11 +197,12 @@ RM(c) == <<"rc_removed", c>>
 \* init_ca + publisher + repository + ca_add_child at the parent +
 \* ca_parent_add_or_update at the child (manager.rs import_ca does the same).
 AddCa(c, p, R) ==
-    /\ ~exists[c] /\ ~gone[c] /\ c # Top
-    /\ exists[p] /\ p # c
+    /\ IsCa(c) /\ ~exists[c] /\ ~gone[c] /\ c # Top
+    /\ IsCa(p) /\ exists[p] /\ p # c
     /\ R # NoRes /\ R \subseteq Holdings(p)
     /\ exists' = [exists EXCEPT ![c] = TRUE]
     /\ parent' = [parent EXCEPT ![c] = p]
+    /\ hasp' = [hasp EXCEPT ![c] = TRUE]
     /\ ent' = [ent EXCEPT ![c] = R]
     /\ cstate' = [cstate EXCEPT ![c] = "active"]
     /\ tasks' = tasks \cup {SP(c)}               \* ParentAdded -> SyncParent
@@ -181,6 +213,67 @@ AddCa(c, p, R) ==
     /\ kst' = [kst EXCEPT ![c] = "ok"]
     /\ UNCHANGED <<rst, gone, iss, sus, rc, rcv, req, routes, pub>>
 
+\* When a resource class is removed the certificates issued under it go
+\* with it (certauth.rs: the ResourceClass holds them).
+KidsDropped(c, f) ==
+    [d \in AllCA |-> IF parent[d] = c /\ cstate[d] # "none" THEN NoCerts ELSE f[d]]
+
+\* One more parent for an existing CA, or a removed parent added again:
+\* ca_add_child at the parent (unless it knows the CA already) and
+\* ca_parent_add_or_update at the CA (certauth.rs process_add_parent).  The
+\* parent is asked for the entitlements first (a resource class list query).
+AddParent(s, p, R) ==
+    /\ s # Top /\ Ex(s) /\ ~hasp[s]
+    /\ IsCa(p) /\ exists[p] /\ p \notin SlotsOf(s)
+    /\ parent[s] \in {"none", p}
+    /\ \A t \in SlotsOf(s) \ {s} : ~(hasp[t] /\ parent[t] = p)
+    /\ IF cstate[s] = "none"
+       THEN /\ R # NoRes /\ R \subseteq Holdings(p)
+            /\ ent' = [ent EXCEPT ![s] = R]
+            /\ cstate' = [cstate EXCEPT ![s] = "active"]
+       ELSE /\ cstate[s] = "active" /\ R = ent[s]
+            /\ UNCHANGED <<ent, cstate>>
+    /\ parent' = [parent EXCEPT ![s] = p]
+    /\ hasp' = [hasp EXCEPT ![s] = TRUE]
+    /\ tasks' = tasks \cup {SP(s)}               \* ParentAdded -> SyncParent
+    /\ pst' = [pst EXCEPT ![s] = [last |-> "ok", ents |-> R \cap Holdings(p)]]
+    /\ kst' = [kst EXCEPT ![s] = "ok"]
+    /\ UNCHANGED <<exists, gone, iss, sus, rc, rcv, req, routes, pub, pubknown, rst>>
+
+\* ca_parent_remove (manager.rs:1373, certauth.rs process_remove_parent):
+\* revocation requests for the keys of the class under that parent are sent
+\* first, best effort (a suspended child that calls in is unsuspended
+\* first); the status entry of the parent is removed; the resource class is
+\* removed (everything under it is withdrawn by the next repository
+\* synchronisation) and a ResourceClassRemoved task without requests is left.
+\* The parent keeps its record of the child.
+RemoveParent(s) ==
+    /\ s # Top /\ Ex(s) /\ hasp[s]
+    /\ LET p == parent[s]
+           callsIn == p \in AllCA /\ exists[p] /\ cstate[s] # "none" /\ rc[s] # "none"
+           unsus == [x \in Roles |->
+                       IF sus[s][x] # NoRes /\ sus[s][x] \subseteq ent[s]
+                       THEN sus[s][x] \cap Holdings(p) ELSE NoRes]
+           hadCerts == (\E x \in Roles : iss[s][x] # NoRes)
+                       \/ (cstate[s] = "suspended" /\ \E x \in Roles : unsus[x] # NoRes)
+       IN  /\ iss' = IF callsIn THEN [KidsDropped(s, iss) EXCEPT ![s] = NoCerts]
+                      ELSE KidsDropped(s, iss)
+           /\ sus' = IF callsIn THEN [KidsDropped(s, sus) EXCEPT ![s] = NoCerts]
+                      ELSE KidsDropped(s, sus)
+           /\ cstate' = IF callsIn /\ cstate[s] = "suspended"
+                        THEN [cstate EXCEPT ![s] = "active"] ELSE cstate
+           /\ kst' = IF callsIn THEN [kst EXCEPT ![s] = "ok"] ELSE kst
+           /\ tasks' = tasks \cup {SR(s)}             \* ParentRemoved
+                         \cup (IF rc[s] # "none" THEN {RM(s)} ELSE {})
+                         \* ChildKeyRevoked at the parent
+                         \cup (IF callsIn /\ hadCerts THEN {SR(p), SP(s)} ELSE {})
+    /\ rc' = [rc EXCEPT ![s] = "none"]
+    /\ rcv' = [rcv EXCEPT ![s] = NoCerts]
+    /\ req' = [req EXCEPT ![s] = {}]
+    /\ hasp' = [hasp EXCEPT ![s] = FALSE]
+    /\ pst' = [pst EXCEPT ![s] = NoPst]           \* status_store.remove_parent
+    /\ UNCHANGED <<exists, gone, parent, ent, routes, pub, pubknown, rst>>
+
 \* ca_child_update(resources): certauth.rs process_child_update_resources.
 \* Post-save: the (local) child is told to sync (mq.rs:596-623).
 ChildRes(c, R) ==
@@ -189,7 +282,7 @@ ChildRes(c, R) ==
     /\ R # ent[c]
     /\ ent' = [ent EXCEPT ![c] = R]
     /\ tasks' = tasks \cup {SP(c)}
-    /\ UNCHANGED <<pubknown, pst, rst, kst, exists, gone, parent, cstate, iss, sus, rc, rcv, req,
+    /\ UNCHANGED <<pubknown, pst, rst, kst, exists, gone, parent, hasp, cstate, iss, sus, rc, rcv, req,
                    routes, pub>>
 
 \* The parent's side of suspending: issued certificates become suspended
@@ -205,7 +298,7 @@ ChildSuspend(c) ==
     /\ sus' = [sus EXCEPT ![c] = iss[c]]
     /\ iss' = [iss EXCEPT ![c] = NoCerts]
     /\ tasks' = tasks \cup {SR(parent[c])}
-    /\ UNCHANGED <<pubknown, pst, rst, kst, exists, gone, parent, ent, rc, rcv, req, routes, pub>>
+    /\ UNCHANGED <<pubknown, pst, rst, kst, exists, gone, parent, hasp, ent, rc, rcv, req, routes, pub>>
 
 \* certauth.rs process_child_unsuspend: a suspended certificate is issued
 \* again if the child's entitlement still contains its resources, with the
@@ -221,7 +314,7 @@ ChildUnsuspend(c) ==
     /\ iss' = [iss EXCEPT ![c] = UnsuspendCerts(c)]
     /\ sus' = [sus EXCEPT ![c] = NoCerts]
     /\ tasks' = IF HasSus(c) THEN tasks \cup {SR(parent[c])} ELSE tasks
-    /\ UNCHANGED <<pubknown, pst, rst, kst, exists, gone, parent, ent, rc, rcv, req, routes, pub>>
+    /\ UNCHANGED <<pubknown, pst, rst, kst, exists, gone, parent, hasp, ent, rc, rcv, req, routes, pub>>
 
 \* ca_child_update(resource class name mapping): the child will know the
 \* parent's resource class under another name.  Class names are not part of
@@ -243,7 +336,7 @@ ChildRemove(c) ==
     \* (suspended certificates are revoked too: a new CRL is published)
     /\ tasks' = IF HasCerts(c) \/ HasSus(c) THEN tasks \cup {SR(parent[c])} ELSE tasks
     /\ kst' = [kst EXCEPT ![c] = "none"]         \* status_store.remove_child
-    /\ UNCHANGED <<pubknown, pst, rst, exists, gone, parent, rc, rcv, req, routes, pub>>
+    /\ UNCHANGED <<pubknown, pst, rst, exists, gone, parent, hasp, rc, rcv, req, routes, pub>>
 
 \* ca_routes_update with one added / one removed authorisation.
 RoaAdd(c, r) ==
@@ -251,7 +344,7 @@ RoaAdd(c, r) ==
     /\ r \notin routes[c] /\ Prefix(r) \in Holdings(c)
     /\ routes' = [routes EXCEPT ![c] = @ \cup {r}]
     /\ tasks' = tasks \cup {SR(c)}
-    /\ UNCHANGED <<pubknown, pst, rst, kst, exists, gone, parent, ent, cstate, iss, sus, rc, rcv, req,
+    /\ UNCHANGED <<pubknown, pst, rst, kst, exists, gone, parent, hasp, ent, cstate, iss, sus, rc, rcv, req,
                    pub>>
 
 RoaDel(c, r) ==
@@ -261,7 +354,7 @@ RoaDel(c, r) ==
     \* an authorisation that had no object (prefix not held any more) leaves
     \* no event that needs publishing
     /\ tasks' = IF Prefix(r) \in Holdings(c) THEN tasks \cup {SR(c)} ELSE tasks
-    /\ UNCHANGED <<pubknown, pst, rst, kst, exists, gone, parent, ent, cstate, iss, sus, rc, rcv, req,
+    /\ UNCHANGED <<pubknown, pst, rst, kst, exists, gone, parent, hasp, ent, cstate, iss, sus, rc, rcv, req,
                    pub>>
 
 \* ca_routes_update with several added and removed authorisations at once
@@ -273,7 +366,7 @@ RoaDelta(c, A, D) ==
     /\ routes' = [routes EXCEPT ![c] = (@ \ D) \cup A]
     /\ tasks' = IF A # {} \/ \E d \in D : Prefix(d) \in Holdings(c)
                 THEN tasks \cup {SR(c)} ELSE tasks
-    /\ UNCHANGED <<pubknown, pst, rst, kst, exists, gone, parent, ent, cstate, iss, sus, rc, rcv, req,
+    /\ UNCHANGED <<pubknown, pst, rst, kst, exists, gone, parent, hasp, ent, cstate, iss, sus, rc, rcv, req,
                    pub>>
 
 \* ca_aspas_definitions_update: add or replace the definition for a customer
@@ -283,22 +376,25 @@ AspaSet(c, x) ==
     /\ x[1] \in Holdings(c)
     /\ routes' = [routes EXCEPT ![c] = (@ \ {y \in AspaDefs : y[1] = x[1]}) \cup {x}]
     /\ tasks' = tasks \cup {SR(c)}
-    /\ UNCHANGED <<pubknown, pst, rst, kst, exists, gone, parent, ent, cstate, iss, sus, rc, rcv, req,
+    /\ UNCHANGED <<pubknown, pst, rst, kst, exists, gone, parent, hasp, ent, cstate, iss, sus, rc, rcv, req,
                    pub>>
 AspaDel(c, cust) ==
     /\ exists[c] /\ \E y \in routes[c] \cap AspaDefs : y[1] = cust
     /\ routes' = [routes EXCEPT ![c] = @ \ {y \in AspaDefs : y[1] = cust}]
     /\ tasks' = IF cust \in Holdings(c) THEN tasks \cup {SR(c)} ELSE tasks
-    /\ UNCHANGED <<pubknown, pst, rst, kst, exists, gone, parent, ent, cstate, iss, sus, rc, rcv, req,
+    /\ UNCHANGED <<pubknown, pst, rst, kst, exists, gone, parent, hasp, ent, cstate, iss, sus, rc, rcv, req,
                    pub>>
 
 \* ca_keyroll_init (max age 0): keys.rs / certauth.rs process_keyroll_initiate
+\* (every resource class of the CA that is in the active state)
 RollInit(c) ==
-    /\ exists[c] /\ rc[c] = "active" /\ c # Top
-    /\ rc' = [rc EXCEPT ![c] = "roll_pending"]
-    /\ req' = [req EXCEPT ![c] = @ \cup {"pend"}]
-    /\ tasks' = tasks \cup {SP(c)}               \* CertificateRequested
-    /\ UNCHANGED <<pubknown, pst, rst, kst, exists, gone, parent, ent, cstate, iss, sus, rcv, routes,
+    /\ IsCa(c) /\ exists[c] /\ c # Top
+    /\ LET S == {s \in SlotsOf(c) : rc[s] = "active"}
+       IN  /\ S # {}
+           /\ rc' = [s \in AllCA |-> IF s \in S THEN "roll_pending" ELSE rc[s]]
+           /\ req' = [s \in AllCA |-> IF s \in S THEN req[s] \cup {"pend"} ELSE req[s]]
+           /\ tasks' = tasks \cup {SP(s) : s \in S}  \* CertificateRequested
+    /\ UNCHANGED <<pubknown, pst, rst, kst, exists, gone, parent, hasp, ent, cstate, iss, sus, rcv, routes,
                    pub>>
 
 \* ca_keyroll_activate (staging 0): the new key becomes current, everything
@@ -320,65 +416,75 @@ CanActivate(c) ==
         /\ iss[d][x] \subseteq rcv[c]["new"]
         /\ sus[d][x] \subseteq rcv[c]["new"]
 
+\* (every resource class of the CA that has a new key; one class that
+\* cannot be activated makes the whole command fail)
+RollSlots(c) == {s \in SlotsOf(c) : rc[s] = "roll_new"}
+RelabelAll(S, K) == {IF k[1] \in S THEN <<k[1], NewRole(k[2]), k[3]>> ELSE k : k \in K}
 RollActivate(c) ==
-    /\ exists[c] /\ rc[c] = "roll_new" /\ c # Top
-    /\ CanActivate(c)
-    /\ rc' = [rc EXCEPT ![c] = "roll_old"]
-    /\ rcv' = [rcv EXCEPT ![c] = Rotate(rcv[c])]
-    /\ iss' = [iss EXCEPT ![c] = Rotate(iss[c])]
-    /\ sus' = [sus EXCEPT ![c] = Rotate(sus[c])]
-    /\ req' = [req EXCEPT ![c] = {"rev"}]
-    /\ tasks' = tasks \cup {SP(c), SR(c)}        \* KeyRollActivated
-    \* what is at the publication server is now, by role, the staging key's
-    \* manifest as the current key's and the products under the old key
-    \* (and the parent's published certificates for the CA's keys are the
-    \* same objects, now for keys in other roles)
-    /\ pub' = [d \in AllCA |->
-                IF d = c
-                THEN [cur |-> pub[c].new, new |-> FALSE, old |-> pub[c].cur,
-                      vrps |-> {}, kids |-> {},
-                      ovrps |-> pub[c].vrps, okids |-> pub[c].kids]
-                ELSE IF d = parent[c]
-                THEN [pub[d] EXCEPT !.kids = Relabel(c, @), !.okids = Relabel(c, @)]
-                ELSE pub[d]]
-    /\ UNCHANGED <<pubknown, pst, rst, kst, exists, gone, parent, ent, cstate, routes>>
+    /\ IsCa(c) /\ exists[c] /\ c # Top
+    /\ LET S == RollSlots(c)
+       IN  /\ S # {} /\ \A s \in S : CanActivate(s)
+           /\ rc' = [s \in AllCA |-> IF s \in S THEN "roll_old" ELSE rc[s]]
+           /\ rcv' = [s \in AllCA |-> IF s \in S THEN Rotate(rcv[s]) ELSE rcv[s]]
+           /\ iss' = [s \in AllCA |-> IF s \in S THEN Rotate(iss[s]) ELSE iss[s]]
+           /\ sus' = [s \in AllCA |-> IF s \in S THEN Rotate(sus[s]) ELSE sus[s]]
+           /\ req' = [s \in AllCA |-> IF s \in S THEN {"rev"} ELSE req[s]]
+           /\ tasks' = tasks \cup {SP(s) : s \in S} \cup {SR(c)}   \* KeyRollActivated
+           \* what is at the publication server is now, by role, the staging
+           \* key's manifest as the current key's and the products under the
+           \* old key (and the parent's published certificates for the CA's
+           \* keys are the same objects, now for keys in other roles)
+           /\ pub' = [d \in AllCA |->
+                       IF d \in S
+                       THEN [cur |-> pub[d].new, new |-> FALSE, old |-> pub[d].cur,
+                             vrps |-> {}, kids |-> {},
+                             ovrps |-> pub[d].vrps, okids |-> pub[d].kids]
+                       ELSE IF d \in {parent[s] : s \in S}
+                       THEN [pub[d] EXCEPT !.kids = RelabelAll(S, @),
+                                           !.okids = RelabelAll(S, @)]
+                       ELSE pub[d]]
+    /\ UNCHANGED <<pubknown, pst, rst, kst, exists, gone, parent, hasp, ent, cstate, routes>>
 
 RollActivateRefused(c) ==
-    /\ exists[c] /\ rc[c] = "roll_new" /\ ~CanActivate(c)
+    /\ IsCa(c) /\ exists[c] /\ RollSlots(c) # {}
+    /\ \E s \in RollSlots(c) : ~CanActivate(s)
     /\ UNCHANGED vars
 
 \* delete_ca: revocation of the CA's keys is requested from the parent (best
 \* effort), the CA and its publisher are removed.
 DeleteCa(c) ==
-    /\ exists[c] /\ c # Top
+    /\ IsCa(c) /\ exists[c] /\ c # Top
     /\ exists' = [exists EXCEPT ![c] = FALSE]
     /\ gone' = [gone EXCEPT ![c] = TRUE]
-    /\ rc' = [rc EXCEPT ![c] = "none"]
-    /\ rcv' = [rcv EXCEPT ![c] = NoCerts]
-    /\ req' = [req EXCEPT ![c] = {}]
     /\ routes' = [routes EXCEPT ![c] = {}]
-    /\ pub' = [pub EXCEPT ![c] = EmptyPub]
-    /\ LET p == parent[c]
-           \* revocation requests are sent for the keys the CA has; a
-           \* suspended child that calls in is unsuspended first
-           callsIn == exists[p] /\ cstate[c] # "none" /\ rc[c] # "none"
-           hadCerts == HasCerts(c) \/ \E x \in Roles : UnsuspendCerts(c)[x] # NoRes
-       IN  /\ iss' = IF callsIn THEN [iss EXCEPT ![c] = NoCerts] ELSE iss
-           /\ sus' = IF callsIn THEN [sus EXCEPT ![c] = NoCerts] ELSE sus
-           /\ cstate' = IF callsIn /\ cstate[c] = "suspended"
-                        THEN [cstate EXCEPT ![c] = "active"] ELSE cstate
+    /\ LET S == SlotsOf(c)
+           \* revocation requests are sent for the keys the CA has under each
+           \* of its parents; a suspended child that calls in is unsuspended
+           \* first
+           callsIn(s) == /\ parent[s] \in AllCA /\ exists[parent[s]]
+                         /\ cstate[s] # "none" /\ rc[s] # "none"
+           hadCerts(s) == HasCerts(s) \/ \E x \in Roles : UnsuspendCerts(s)[x] # NoRes
+           C == {s \in S : callsIn(s)}
+       IN  /\ rc' = [s \in AllCA |-> IF s \in S THEN "none" ELSE rc[s]]
+           /\ rcv' = [s \in AllCA |-> IF s \in S THEN NoCerts ELSE rcv[s]]
+           /\ req' = [s \in AllCA |-> IF s \in S THEN {} ELSE req[s]]
+           /\ pub' = [s \in AllCA |-> IF s \in S THEN EmptyPub ELSE pub[s]]
+           /\ iss' = [s \in AllCA |-> IF s \in C THEN NoCerts ELSE iss[s]]
+           /\ sus' = [s \in AllCA |-> IF s \in C THEN NoCerts ELSE sus[s]]
+           /\ cstate' = [s \in AllCA |-> IF s \in C /\ cstate[s] = "suspended"
+                                         THEN "active" ELSE cstate[s]]
            \* (tasks of the deleted CA stay queued and are dropped when
            \* their time comes)
-           /\ tasks' = tasks \cup (IF callsIn /\ hadCerts THEN {SR(p), SP(c)} ELSE {})
+           /\ tasks' = tasks \cup UNION {{SR(parent[s]), SP(s)} : s \in {t \in C : hadCerts(t)}}
            \* the CA's reports go with it (status_store.remove_ca), also
            \* those about its children; its own last request is recorded by
            \* its parent
            /\ kst' = [d \in AllCA |->
                         IF parent[d] = c THEN "none"
-                        ELSE IF d = c /\ callsIn THEN "ok" ELSE kst[d]]
-    /\ pst' = [pst EXCEPT ![c] = NoPst]
+                        ELSE IF d \in C THEN "ok" ELSE kst[d]]
+           /\ pst' = [s \in AllCA |-> IF s \in S THEN NoPst ELSE pst[s]]
     /\ rst' = [rst EXCEPT ![c] = NoRst]
-    /\ UNCHANGED <<pubknown, parent, ent>>
+    /\ UNCHANGED <<pubknown, parent, hasp, ent>>
 
 ---------------------------------------------------------------------------
 (* Background tasks *)
@@ -415,14 +521,14 @@ ShrinkChanges(c, newRes) ==
 
 \* Task::SyncParent -> CaManager::ca_sync_parent
 SyncParentOK(c) ==
-    /\ SP(c) \in tasks /\ exists[c]
+    /\ SP(c) \in tasks /\ Ex(c) /\ hasp[c]
     /\ parent[c] \in AllCA /\ exists[parent[c]] /\ cstate[c] # "none"
 
 \* The CA's own products and its children's certificates follow a new
 \* current certificate: route origins are re-filtered, child certificates
 \* are cut down (rc.rs process_rcvd_cert_current).  A repository sync is
 \* needed iff something of that changed.
-VrpsFor(c, R) == {r \in routes[c] : Prefix(r) \in R}
+VrpsFor(c, R) == {r \in routes[Prim(c)] : Prefix(r) \in R}
 
 \* ... with open requests: send_requests = revocation requests first, then
 \* certificate requests; every answer is applied at once.
@@ -490,7 +596,7 @@ SyncParentSend(c) ==
             /\ pst' = [pst EXCEPT ![c].last = "ok"]
             /\ kst' = [kst EXCEPT ![c] = "ok"]
     /\ cstate' = [cstate EXCEPT ![c] = "active"]
-    /\ UNCHANGED <<pubknown, rst, exists, gone, parent, ent, routes, pub>>
+    /\ UNCHANGED <<pubknown, rst, exists, gone, parent, hasp, ent, routes, pub>>
 
 \* ... without open requests: get_updates_from_parent (list entitlements,
 \* keys.rs request_certs_new_entitlement)
@@ -507,9 +613,10 @@ SyncParentList(c) ==
                      \* keys.rs:508-517: in RollOld the old key's wish for an
                      \* update is turned into a request for the current key
                      \cup (IF rc[c] = "roll_old" /\ rcv[c]["old"] # E THEN {"cur"} ELSE {})
+           classGone == rc[c] # "none" /\ E = NoRes
        IN
-       /\ iss' = [iss EXCEPT ![c] = call.iss]
-       /\ sus' = [sus EXCEPT ![c] = call.sus]
+       /\ iss' = [(IF classGone THEN KidsDropped(c, iss) ELSE iss) EXCEPT ![c] = call.iss]
+       /\ sus' = [(IF classGone THEN KidsDropped(c, sus) ELSE sus) EXCEPT ![c] = call.sus]
        /\ cstate' = [cstate EXCEPT ![c] = "active"]
        /\ CASE rc[c] = "none" /\ E # NoRes ->
                  \* new resource class with a pending key and a request
@@ -535,39 +642,51 @@ SyncParentList(c) ==
        \* set_parent_entitlements / set_child_success
        /\ pst' = [pst EXCEPT ![c] = [last |-> "ok", ents |-> E]]
        /\ kst' = [kst EXCEPT ![c] = "ok"]
-    /\ UNCHANGED <<pubknown, rst, exists, gone, parent, ent, routes, pub>>
+    /\ UNCHANGED <<pubknown, rst, exists, gone, parent, hasp, ent, routes, pub>>
 
 \* The parent does not know the child (any more), or the parent is gone:
 \* the exchange fails, nothing changes, the task is tried again later.
 SyncParentFails(c) ==
-    /\ SP(c) \in tasks /\ exists[c]
+    /\ SP(c) \in tasks /\ Ex(c) /\ hasp[c]
     /\ ~(parent[c] \in AllCA /\ exists[parent[c]] /\ cstate[c] # "none")
     /\ tasks' = tasks \ {SP(c)}
     \* (the parent cannot record anything about a child it does not know)
     /\ pst' = [pst EXCEPT ![c].last = "fail"]
-    /\ UNCHANGED <<pubknown, rst, kst, exists, gone, parent, ent, cstate, iss, sus, rc, rcv, req,
+    /\ UNCHANGED <<pubknown, rst, kst, exists, gone, parent, hasp, ent, cstate, iss, sus, rc, rcv, req,
                    routes, pub>>
+
+\* The CA has removed that parent meanwhile: the task is dropped, nothing is
+\* recorded (scheduler.rs sync_parent: CaParentUnknown -> Done).
+SyncParentNoParent(c) ==
+    /\ SP(c) \in tasks /\ Ex(c) /\ ~hasp[c]
+    /\ tasks' = tasks \ {SP(c)}
+    /\ UNCHANGED <<pubknown, pst, rst, kst, exists, gone, parent, hasp, ent, cstate, iss, sus, rc, rcv,
+                   req, routes, pub>>
 
 \* A sync task of a CA that has been deleted meanwhile is dropped.
 SyncDropped(c) ==
-    /\ ~exists[c]
+    /\ ~Ex(c)
     /\ \E t \in {SP(c), SR(c), RM(c)} : t \in tasks /\ tasks' = tasks \ {t}
-    /\ UNCHANGED <<pubknown, pst, rst, kst, exists, gone, parent, ent, cstate, iss, sus, rc, rcv, req,
+    /\ UNCHANGED <<pubknown, pst, rst, kst, exists, gone, parent, hasp, ent, cstate, iss, sus, rc, rcv, req,
                    routes, pub>>
 
 \* Task::ResourceClassRemoved: revocation requests for the keys of a
 \* removed class are sent to the parent (best effort).
+\* (If the CA itself removed the parent the task carries no requests and the
+\* parent cannot be contacted any more: nothing happens, nothing is recorded.)
 RcRemoved(c) ==
-    /\ RM(c) \in tasks /\ exists[c]
+    /\ RM(c) \in tasks /\ Ex(c)
     /\ LET p == parent[c]
-           ok == p \in AllCA /\ exists[p] /\ cstate[c] # "none" /\ HasCerts(c)
+           ok == hasp[c] /\ p \in AllCA /\ exists[p] /\ cstate[c] # "none" /\ HasCerts(c)
        IN  /\ iss' = IF ok THEN [iss EXCEPT ![c] = NoCerts] ELSE iss
            /\ tasks' = (tasks \ {RM(c)})
                        \cup (IF ok THEN {SR(p), SP(c)} ELSE {})
            /\ LET reached == p \in AllCA /\ exists[p] /\ cstate[c] # "none"
-              IN  /\ pst' = [pst EXCEPT ![c].last = IF reached THEN "ok" ELSE "fail"]
-                  /\ kst' = IF reached THEN [kst EXCEPT ![c] = "ok"] ELSE kst
-    /\ UNCHANGED <<pubknown, rst, exists, gone, parent, ent, cstate, sus, rc, rcv, req, routes,
+              IN  /\ pst' = IF hasp[c]
+                            THEN [pst EXCEPT ![c].last = IF reached THEN "ok" ELSE "fail"]
+                            ELSE pst
+                  /\ kst' = IF hasp[c] /\ reached THEN [kst EXCEPT ![c] = "ok"] ELSE kst
+    /\ UNCHANGED <<pubknown, rst, exists, gone, parent, hasp, ent, cstate, sus, rc, rcv, req, routes,
                    pub>>
 
 \* Task::SyncRepo: the publication server receives the difference between
@@ -579,48 +698,50 @@ RcRemoved(c) ==
 \* even when the server has no publisher for it -- pubd/manager.rs
 \* rfc8181_message checks the publisher only for a delta --, so with nothing
 \* to publish the exchange succeeds.)
+NothingToPublish(c) == \A s \in SlotsOf(c) : Obj(s) = EmptyPub
 SyncRepo(c) ==
-    /\ SR(c) \in tasks /\ exists[c] /\ (pubknown[c] \/ Obj(c) = EmptyPub)
-    /\ pub' = [pub EXCEPT ![c] = Obj(c)]
+    /\ IsCa(c) /\ SR(c) \in tasks /\ exists[c] /\ (pubknown[c] \/ NothingToPublish(c))
+    /\ pub' = [s \in AllCA |-> IF s \in SlotsOf(c) THEN Obj(s) ELSE pub[s]]
     /\ tasks' = tasks \ {SR(c)}
     /\ \E same \in BOOLEAN :
           /\ (rst[c].same \/ ShadowRebuilt) => same
           /\ (~rst[c].same /\ ~rst[c].empty /\ ~ShadowRebuilt) => ~same
           /\ rst' = [rst EXCEPT ![c] = [last |-> "ok", same |-> same,
-                                        empty |-> Obj(c) = EmptyPub]]
-    /\ UNCHANGED <<pubknown, pst, kst, exists, gone, parent, ent, cstate, iss, sus, rc, rcv, req,
+                                        empty |-> NothingToPublish(c)]]
+    /\ UNCHANGED <<pubknown, pst, kst, exists, gone, parent, hasp, ent, cstate, iss, sus, rc, rcv, req,
                    routes>>
 
 \* The server does not know the publisher: the exchange fails, the task is
 \* tried again later.
 SyncRepoFails(c) ==
-    /\ SR(c) \in tasks /\ exists[c] /\ ~pubknown[c] /\ Obj(c) # EmptyPub
+    /\ IsCa(c) /\ SR(c) \in tasks /\ exists[c] /\ ~pubknown[c] /\ ~NothingToPublish(c)
     /\ rst' = [rst EXCEPT ![c].last = "fail"]
     /\ tasks' = tasks \ {SR(c)}
-    /\ UNCHANGED <<pubknown, pst, kst, exists, gone, parent, ent, cstate, iss, sus, rc, rcv, req,
+    /\ UNCHANGED <<pubknown, pst, kst, exists, gone, parent, hasp, ent, cstate, iss, sus, rc, rcv, req,
                    routes, pub>>
 
 \* the execution of one particular due task
 RunTask(t) ==
     /\ t \in tasks
     /\ \/ t[1] = "sync_parent"
-          /\ (SyncParentSend(t[2]) \/ SyncParentList(t[2]) \/ SyncParentFails(t[2]))
+          /\ (SyncParentSend(t[2]) \/ SyncParentList(t[2]) \/ SyncParentFails(t[2])
+              \/ SyncParentNoParent(t[2]))
        \/ t[1] = "sync_repo" /\ (SyncRepo(t[2]) \/ SyncRepoFails(t[2]))
        \/ t[1] = "rc_removed" /\ RcRemoved(t[2])
-       \/ /\ ~exists[t[2]]
+       \/ /\ ~Ex(t[2])
           /\ tasks' = tasks \ {t}
-          /\ UNCHANGED <<pubknown, pst, rst, kst, exists, gone, parent, ent, cstate, iss, sus, rc, rcv, req,
+          /\ UNCHANGED <<pubknown, pst, rst, kst, exists, gone, parent, hasp, ent, cstate, iss, sus, rc, rcv, req,
                          routes, pub>>
 
 Task(c) ==
     \/ SyncParentSend(c) \/ SyncParentList(c) \/ SyncParentFails(c)
-    \/ SyncDropped(c) \/ RcRemoved(c) \/ SyncRepo(c) \/ SyncRepoFails(c)
+    \/ SyncParentNoParent(c) \/ SyncDropped(c) \/ RcRemoved(c) \/ SyncRepo(c) \/ SyncRepoFails(c)
 
 \* The periodic refresh (ca_refresh / "bulk refresh"): every CA is told to
 \* sync with its parent.
 RefreshAll ==
-    /\ tasks' = tasks \cup {SP(c) : c \in {d \in AllCA : exists[d] /\ d # Top}}
-    /\ UNCHANGED <<pubknown, pst, rst, kst, exists, gone, parent, ent, cstate, iss, sus, rc, rcv, req,
+    /\ tasks' = tasks \cup {SP(c) : c \in {d \in AllCA : Ex(d) /\ hasp[d] /\ d # Top}}
+    /\ UNCHANGED <<pubknown, pst, rst, kst, exists, gone, parent, hasp, ent, cstate, iss, sus, rc, rcv, req,
                    routes, pub>>
 
 \* Task::RepublishIfNeeded: every CA whose manifests and CRLs are due
@@ -629,46 +750,50 @@ RefreshAll ==
 \* Task::RenewObjectsIfNeeded: every CA re-issues the route origin objects
 \* that are within the re-issue margin (-> RoasUpdated -> repository sync).
 \* Whether something is due is a matter of time; `due` says so.
-HasKeys(c) == exists[c] /\ rcv[c]["cur"] # NoRes
+HasKeys(c) == Ex(c) /\ rcv[c]["cur"] # NoRes
+CaHasKeys(c) == \E s \in SlotsOf(c) : HasKeys(s)
 Republish(due) ==
     /\ tasks' = IF due THEN tasks \cup {SR(c) : c \in {d \in AllCA : HasKeys(d)}}
                        ELSE tasks
-    /\ UNCHANGED <<pubknown, pst, rst, kst, exists, gone, parent, ent, cstate, iss, sus, rc, rcv, req,
+    /\ UNCHANGED <<pubknown, pst, rst, kst, exists, gone, parent, hasp, ent, cstate, iss, sus, rc, rcv, req,
                    routes, pub>>
 \* ... for the CAs in S (those with a key set within the margin)
 RepublishFor(S) ==
     /\ tasks' = tasks \cup {SR(c) : c \in {d \in S : HasKeys(d)}}
-    /\ UNCHANGED <<pubknown, pst, rst, kst, exists, gone, parent, ent, cstate, iss, sus, rc, rcv, req,
+    /\ UNCHANGED <<pubknown, pst, rst, kst, exists, gone, parent, hasp, ent, cstate, iss, sus, rc, rcv, req,
                    routes, pub>>
 Renew(due) ==
     /\ tasks' = IF due
                 THEN tasks \cup {SR(c) : c \in {d \in AllCA : HasKeys(d) /\ VrpsFor(d, rcv[d]["cur"]) # {}}}
                 ELSE tasks
-    /\ UNCHANGED <<pubknown, pst, rst, kst, exists, gone, parent, ent, cstate, iss, sus, rc, rcv, req,
+    /\ UNCHANGED <<pubknown, pst, rst, kst, exists, gone, parent, hasp, ent, cstate, iss, sus, rc, rcv, req,
                    routes, pub>>
 
 \* The publication server's operator removes the CA's publisher (its
 \* content goes with it) and later adds it again; "bulk sync" tells every CA
 \* to synchronise with its repository.
 PubRemove(c) ==
-    /\ exists[c] /\ pubknown[c] /\ c # Top
+    /\ IsCa(c) /\ exists[c] /\ pubknown[c] /\ c # Top
     /\ pubknown' = [pubknown EXCEPT ![c] = FALSE]
-    /\ pub' = [pub EXCEPT ![c] = EmptyPub]
+    /\ pub' = [s \in AllCA |-> IF s \in SlotsOf(c) THEN EmptyPub ELSE pub[s]]
     /\ rst' = [rst EXCEPT ![c].same = rst[c].empty]
-    /\ UNCHANGED <<pst, kst, exists, gone, parent, ent, cstate, iss, sus, rc, rcv, req,
+    /\ UNCHANGED <<pst, kst, exists, gone, parent, hasp, ent, cstate, iss, sus, rc, rcv, req,
                    routes, tasks>>
 PubAdd(c) ==
     /\ exists[c] /\ ~pubknown[c]
     /\ pubknown' = [pubknown EXCEPT ![c] = TRUE]
-    /\ UNCHANGED <<pst, rst, kst, exists, gone, parent, ent, cstate, iss, sus, rc, rcv, req,
+    /\ UNCHANGED <<pst, rst, kst, exists, gone, parent, hasp, ent, cstate, iss, sus, rc, rcv, req,
                    routes, pub, tasks>>
 RepoSyncAll ==
-    /\ tasks' = tasks \cup {SR(c) : c \in {d \in AllCA : exists[d]}}
-    /\ UNCHANGED <<pubknown, pst, rst, kst, exists, gone, parent, ent, cstate, iss, sus, rc, rcv, req,
+    /\ tasks' = tasks \cup {SR(c) : c \in {d \in AllCA : Ex(d)}}
+    /\ UNCHANGED <<pubknown, pst, rst, kst, exists, gone, parent, hasp, ent, cstate, iss, sus, rc, rcv, req,
                    routes, pub>>
 
 ApiNext ==
     \/ \E c \in Sub, R \in SUBSET Res : AddCa(c, ParentOf[c], R)
+    \/ "parents" \in Ops /\ \E s \in Sub :
+            \/ RemoveParent(s)
+            \/ \E R \in SUBSET Res : AddParent(s, ParentOf[s], R)
     \/ "res" \in Ops /\ \E c \in Sub, R \in SUBSET Res : ChildRes(c, R)
     \/ "suspend" \in Ops /\ \E c \in Sub : ChildSuspend(c) \/ ChildUnsuspend(c)
     \/ "map" \in Ops /\ \E c \in Sub : ChildMap(c)
@@ -724,11 +849,13 @@ KidsOf(c, x) == IF x = "cur" THEN pub[c].kids
                 ELSE IF x = "old" THEN pub[c].okids ELSE {}
 
 \* validated route origins
+\* (attributed to the CA, whichever of its resource classes the object is in)
 RpVrps ==
     {<<r, c>> \in Roa \X AllCA :
-        \E x \in {"cur", "old"} :
-            ValidKey(c, x) /\ pub[c][x] /\ r \in Products(c, x)
-            /\ Prefix(r) \in CertRes(c, x)}
+        /\ IsCa(c)
+        /\ \E s \in SlotsOf(c), x \in {"cur", "old"} :
+            ValidKey(s, x) /\ pub[s][x] /\ r \in Products(s, x)
+            /\ Prefix(r) \in CertRes(s, x)}
 
 \* objects a relying party rejects or cannot find
 RoaOverclaims == {<<c, r>> \in AllCA \X Roa :
@@ -758,7 +885,7 @@ Quiescent == tasks = {}
 \* certificate do not intersect) the request is refused every time, so the
 \* CA never learns that the class is gone and keeps the request for ever.
 StuckRequest(c) ==
-    /\ exists[c] /\ c # Top /\ parent[c] \in AllCA /\ exists[parent[c]]
+    /\ Ex(c) /\ hasp[c] /\ c # Top /\ parent[c] \in AllCA /\ exists[parent[c]]
     /\ cstate[c] # "none"
     /\ (req[c] \ {"rev"}) # {} /\ Offer(c) = NoRes
 NoStuckRequest == \A c \in AllCA : ~StuckRequest(c)
@@ -772,14 +899,14 @@ NoStuckRequest == \A c \in AllCA : ~StuckRequest(c)
 \* a certificate for the key): the key stays without a published
 \* certificate until validity times drift far enough apart.
 LostCert(c) ==
-    /\ exists[c] /\ c # Top /\ parent[c] \in AllCA /\ exists[parent[c]]
+    /\ Ex(c) /\ hasp[c] /\ c # Top /\ parent[c] \in AllCA /\ exists[parent[c]]
     /\ cstate[c] = "active"
     /\ \E x \in {"cur", "new"} :
           rcv[c][x] # NoRes /\ iss[c][x] = NoRes /\ rcv[c][x] = Offer(c)
 NoLostCert == \A c \in AllCA : ~LostCert(c)
 
 NoOpenWork(c) ==
-    exists[c] /\ c # Top /\ ~StuckRequest(c) /\ ~LostCert(c) /\ parent[c] \in AllCA /\ exists[parent[c]]
+    Ex(c) /\ hasp[c] /\ c # Top /\ ~StuckRequest(c) /\ ~LostCert(c) /\ parent[c] \in AllCA /\ exists[parent[c]]
       /\ cstate[c] = "active"
     => /\ req[c] = {}
        \* (a roll waiting for the operator to activate the new key is at rest)
@@ -797,7 +924,10 @@ Settled == Quiescent /\ \A c \in AllCA : NoOpenWork(c)
 \* publication point is gone.  The properties below are stated for states
 \* without such a dangling certificate; reaching one on the real code is
 \* reported as the known finding by the checks.
-Dangling(c) == gone[c] /\ HasCerts(c) /\ parent[c] \in AllCA /\ exists[parent[c]]
+\* (The same happens when the CA removes the parent in that window: the
+\* task then finds no parent to send the requests to.)
+Dangling(c) == /\ gone[Prim(c)] \/ ~hasp[c]
+               /\ HasCerts(c) /\ parent[c] \in AllCA /\ exists[parent[c]]
 NoDangling == \A c \in AllCA : ~Dangling(c)
 
 \* C01: the published tree is relying-party clean and says exactly what
@@ -805,7 +935,8 @@ NoDangling == \A c \in AllCA : ~Dangling(c)
 RPClean == RoaOverclaims = {} /\ CertOverclaims = {} /\ MissingPoints = {}
 ExpectedVrps ==
     {<<r, c>> \in Roa \X AllCA :
-        exists[c] /\ Valid(c) /\ r \in routes[c] /\ Prefix(r) \in rcv[c]["cur"]}
+        /\ IsCa(c) /\ exists[c] /\ r \in routes[c]
+        /\ \E s \in SlotsOf(c) : Valid(s) /\ Prefix(r) \in rcv[s]["cur"]}
 C01_Clean == Settled /\ NoDangling /\ NoStuckRequest /\ NoLostCert => RPClean
 C01_Vrps == Settled /\ NoStuckRequest /\ NoLostCert => RpVrps = ExpectedVrps
 
@@ -814,7 +945,7 @@ C01_Vrps == Settled /\ NoStuckRequest /\ NoLostCert => RpVrps = ExpectedVrps
 \* up to date with its object store).
 Synced(c) == SR(c) \notin tasks
 C02_NoOverclaim ==
-    \A c \in AllCA : exists[c] /\ Synced(c)
+    \A c \in AllCA : Ex(c) /\ Synced(c)
         => \A k \in pub[c].kids : k[3] \subseteq rcv[c]["cur"]
 \* ... and whenever a certificate is issued (or re-issued) to a child it
 \* carries no more than the child's entitlement cut to the issuer's current
@@ -830,7 +961,7 @@ C02_IssuedWithinEntitlementStep ==
 C02_IssuedWithinEntitlement == [][C02_IssuedWithinEntitlementStep]_vars
 C02_Converged ==
     Settled => \A c \in Sub :
-        exists[c] /\ parent[c] \in AllCA /\ exists[parent[c]] /\ cstate[c] = "active"
+        Ex(c) /\ hasp[c] /\ parent[c] \in AllCA /\ exists[parent[c]] /\ cstate[c] = "active"
         /\ ~StuckRequest(c) /\ ~LostCert(c)
         => (IF Offer(c) = NoRes THEN rc[c] = "none"
             ELSE rc[c] \in {"active", "roll_new"} /\ rcv[c]["cur"] = Offer(c))
@@ -838,14 +969,14 @@ C02_Converged ==
 \* C04: exactly one key signs products; staging and old keys carry manifest
 \* and CRL only; every key in use has a certificate.
 C04_KeysHaveCerts ==
-    \A c \in AllCA : exists[c] =>
+    \A c \in AllCA : Ex(c) =>
         /\ rc[c] \in {"active", "roll_pending", "roll_new", "roll_old"}
               => rcv[c]["cur"] # NoRes
         /\ rc[c] = "roll_new" => rcv[c]["new"] # NoRes
         /\ rc[c] = "roll_old" => rcv[c]["old"] # NoRes
         /\ rc[c] \in {"none", "pending"} => rcv[c] = NoCerts
 C04_PubKeysMatch ==
-    \A c \in AllCA : exists[c] /\ Synced(c) =>
+    \A c \in AllCA : Ex(c) /\ Synced(c) =>
         /\ pub[c].new = (rc[c] = "roll_new")
         /\ pub[c].old = (rc[c] = "roll_old")
 \* C19: what the status reports say.  That the reported outcome is the one
@@ -862,12 +993,15 @@ C19_ShadowAfterSync == [][C19_ShadowAfterSyncStep]_vars
 \* removing a child or a CA removes the entries about it
 C19_RemovalRemoves ==
     \A c \in AllCA :
-        /\ ~exists[c] => pst[c] = NoPst /\ rst[c] = NoRst
+        /\ ~Ex(c) => pst[c] = NoPst
+        /\ (IsCa(c) /\ ~exists[c]) => rst[c] = NoRst
+        \* removing a parent removes the entry about it
+        /\ (c # Top /\ ~hasp[c]) => pst[c] = NoPst
         /\ (c # Top /\ cstate[c] = "none") => kst[c] = "none"
         /\ (c # Top /\ parent[c] \in AllCA /\ ~exists[parent[c]]) => kst[c] = "none"
 \* a report never says success with entitlements the parent cannot have
 \* given, and "nothing reported yet" only before the first exchange
 C19_EntsWithinEntitlement ==
-    \A c \in Sub : exists[c] => pst[c].ents \subseteq Res
+    \A c \in Sub : Ex(c) => pst[c].ents \subseteq Res
 
 =============================================================================
